@@ -83,6 +83,14 @@ CLAIMED.update({
          "build tag verif). Bounds: 2 closers x 1-2 connections x 1-2 commands.",
          "TLA+ spec (PgServer) + TLC safety/liveness model checking + replay of TLC-generated schedules on real goroutines "
          "through hook gates + TLC trace validation of the observed event order", "4 C16"),
+ "C14": ("TLC runs the reassembling row reader of PgCopyBin over every scenario of a bounded family (tables, header/trailer, "
+         "field-count corruptions, truncation after every cell, every small cut set) and checks chunk-insensitivity and "
+         "no fabricated rows; every scenario is encoded with real typed values, cut into CopyData messages at the "
+         "corresponding byte offsets, read on the real server through NewBinaryColumnReader and validated by TLC "
+         "(rows, NULLs, end status); random scenarios add byte-level cuts, empty chunks and truncation at any byte.",
+         CONN_NOTE + " Trusted additionally: the harness's binary encoders and the canonical rendering of decoded Go values.",
+         "TLA+ spec (PgCopyBin) + TLC model checking of the reader algorithm over all scenarios + replay of each scenario "
+         "on the real reader + TLC trace validation of the returned rows", "4 C14"),
 })
 NOT_YET = "machinery for this property is not built yet in this revision (planned, see DESIGN.md section 4)"
 
